@@ -38,11 +38,36 @@ class Scenario:
         return json.dumps([self.cfg, self.cause, self.pattern, self.then])
 
 
-def params_of(eio_call, connects):
+class RefreshingAuth:
+    """auth given as a callable whose answer changes (a token that is
+    refreshed): "the same auth" means the same callable, asked again for
+    every connection."""
+
+    def __init__(self):
+        self.calls = 0
+        self.seen = 0
+
+    def __call__(self):
+        self.calls += 1
+        return {'tok': 'A%d' % self.calls}
+
+    def field(self, payload):
+        fresh = self.calls > self.seen and \
+            payload == {'tok': 'A%d' % self.calls}
+        self.seen = self.calls
+        return 'callable:asked-again' if fresh else \
+            'callable:STALE ' + json.dumps(payload, sort_keys=True)
+
+
+def params_of(eio_call, connects, auth=None):
     # what cannot be observed (the engine.io connection failed before any
     # CONNECT packet was sent) is a wildcard
+    if connects and isinstance(auth, RefreshingAuth):
+        a = auth.field(connects[0][1])
+    else:
+        a = json.dumps(connects[0][1], sort_keys=True) if connects else '*'
     return [eio_call['url'], json.dumps(eio_call['headers'], sort_keys=True),
-            json.dumps(connects[0][1], sort_keys=True) if connects else '*',
+            a,
             json.dumps(eio_call['transports']),
             json.dumps([c[0] for c in connects]) if connects else '*']
 
@@ -71,6 +96,7 @@ def run_sync(sc):
         c.on('connect', (lambda ns=ns: handlers.append(ns)), namespace=ns)
     pattern = list(sc.pattern)
     state = {'outcome': 'ok', 'aborting': False}
+    auth = RefreshingAuth() if sc.cfg.get('auth_callable') else AUTH
 
     def connects_sent():
         out = []
@@ -123,14 +149,14 @@ def run_sync(sc):
             del c.eio.sent[:]
             n0 = len(c.eio.connect_calls)
             try:
-                c.connect(URL, headers=HEADERS, auth=AUTH,
+                c.connect(URL, headers=HEADERS, auth=auth,
                           transports=TRANSPORTS, namespaces=NSS)
                 ok = True
             except Exception:
                 ok = False
             events.append({'ev': 'Connect', 'ok': ok, 'nns': len(NSS),
                            'params': params_of(c.eio.connect_calls[n0],
-                                               connects_sent())
+                                               connects_sent(), auth)
                            if len(c.eio.connect_calls) > n0
                            else ['?no-attempt'] * 5})
         app_connect()
@@ -176,7 +202,7 @@ def run_sync(sc):
                         if e.get('ev') == 'Attempt' and e['params'] is None:
                             e['params'] = params_of(
                                 c.eio.connect_calls[e.pop('_n0')],
-                                connects_sent())
+                                connects_sent(), auth)
             c.connect = sio_connect
             try:
                 task.run()
@@ -241,6 +267,7 @@ def run_async(sc):
         c.on('connect', h, namespace=ns)
     pattern = list(sc.pattern)
     state = {'outcome': 'ok', 't0': 0.0, 'step': None}
+    auth = RefreshingAuth() if sc.cfg.get('auth_callable') else AUTH
 
     def connects_sent():
         out = []
@@ -266,14 +293,14 @@ def run_async(sc):
             del c.eio.sent[:]
             n0 = len(c.eio.connect_calls)
             try:
-                await c.connect(URL, headers=HEADERS, auth=AUTH,
+                await c.connect(URL, headers=HEADERS, auth=auth,
                                 transports=TRANSPORTS, namespaces=NSS)
                 ok = True
             except Exception:
                 ok = False
             events.append({'ev': 'Connect', 'ok': ok, 'nns': len(NSS),
                            'params': params_of(c.eio.connect_calls[n0],
-                                               connects_sent())
+                                               connects_sent(), auth)
                            if len(c.eio.connect_calls) > n0
                            else ['?no-attempt'] * 5})
         await app_connect()
@@ -333,7 +360,7 @@ def run_async(sc):
                         if e.get('ev') == 'Attempt' and e['params'] is None:
                             e['params'] = params_of(
                                 c.eio.connect_calls[e.pop('_n0')],
-                                connects_sent())
+                                connects_sent(), auth)
                     t['t0'] = loop.time()
                     next_step()
                     if state['step'][0] == 'abort':
@@ -416,7 +443,10 @@ def scenarios(tier, rng):
     for d, m, r, n in combos:
         for rec in (True, False):
             cfg = {'delay': d, 'max': m, 'rf': r, 'attempts': n,
-                   'reconnection': rec}
+                   'reconnection': rec,
+                   # (a third of the grid hands auth over as a callable
+                   # whose answer changes with every call)
+                   'auth_callable': d == 1000}
             for cause in ('transport_error', 'client_disconnect',
                           'server_disconnect', 'server_close'):
                 if cause != 'transport_error' or not rec:
